@@ -140,7 +140,7 @@ def gen_doc(rng, prefix, file_idx):
 
 
 def plan(seed, tier):
-    n = 32 if tier == "quick" else 640
+    n = 32 if tier == "quick" else 4000
     cases = [{"class": "docs", "index": i, "reps": 8, "cost": 2} for i in range(n)]
     cases += [{"class": "reject", "index": i, "reps": 8, "cost": 1} for i in range(max(4, n // 8))]
     return cases
